@@ -44,6 +44,18 @@ def _kexinit(size):
     return b'\x14' + b'\x00' * 16 + b''.join(len(entry).to_bytes(4, 'big') + entry for entry in lists) + b'\x00' + b'\x00' * 4
 
 
+def _kexinit_languages(size):
+    """One language tag with very many subtags in the (normally empty) language name-lists."""
+    tag = b'en' + b'-x' * max(1, size // 2)
+    lists = [b'curve25519-sha256'] + [b'x'] * 7 + [tag, tag]
+    return b'\x14' + b'\x00' * 16 + b''.join(len(entry).to_bytes(4, 'big') + entry for entry in lists) + b'\x00' + b'\x00' * 4
+
+
+def _mx_labels(size):
+    """MX RDATA whose exchange name is made of very many one-byte labels."""
+    return b'\x00\x0a' + b'\x01a' * max(1, size // 2) + b'\x00'
+
+
 def _txt_strings(size):
     return b''.join(b'\xff' + b'a' * 255 for _ in range(max(1, size // 256)))
 
@@ -92,6 +104,8 @@ EXPLICIT_SHAPES = [(SPF, 'spf-' + term.decode('ascii').split(':')[0].split('=')[
     ('cryptoparser.tls.subprotocol:TlsHandshakeClientHello', 'hello-grease-suites', _client_hello('grease-suites')),
     ('cryptoparser.tls.subprotocol:TlsHandshakeClientHello', 'hello-unknown-extensions', _client_hello('extensions')),
     ('cryptoparser.dnsrec.record:DnsRecordTxt', 'txt-strings', _txt_strings),
+    ('cryptoparser.dnsrec.record:DnsRecordMx', 'mx-many-labels', _mx_labels),
+    ('cryptoparser.ssh.subprotocol:SshKeyExchangeInit', 'kexinit-language-subtags', _kexinit_languages),
     ('cryptoparser.httpx.header:HttpHeaderFields', 'unknown-header-lines', _header_block(b'X-Unknown-Header: value\r\n')),
     ('cryptoparser.httpx.header:HttpHeaderFields', 'known-header-lines', _header_block(b'Strict-Transport-Security: max-age=1\r\n')),
     ('cryptoparser.httpx.header:HttpHeaderFields', 'cookie-header-lines', _header_block(b'Set-Cookie: a=b; Path=/; Secure\r\n')),
